@@ -13,6 +13,8 @@
 (*                      both windows positive, yet nothing more was sent    *)
 (*  end-missing         all data delivered and the application finished,    *)
 (*                      but no END_STREAM                                   *)
+(*  upload-starved      a client upload stalled at window 0 although all it  *)
+(*                      sent was consumed                                   *)
 (*  spinning            the server does not become quiescent                *)
 (***************************************************************************)
 EXTENDS Obs
@@ -45,6 +47,10 @@ Clauses(o, ev, o2) ==
                             /\ Wire(o, a).ends = 0
             IN (IF \E a \in DOMAIN o.apps : Stalled(a) THEN <<F("stalled-with-window", "")>> ELSE <<>>)
             \o (IF \E a \in DOMAIN o.apps : NoEnd(a) THEN <<F("end-missing", "")>> ELSE <<>>)
+            \* the other direction: what the server has consumed (delivered, or discarded for a finished stream)
+            \* is credited back, so that no stream's upload - and with it its response - is held up for good
+            \o (IF ~o.winddown /\ \E a \in DOMAIN o.stalled : UploadStarved(o, a)
+                THEN <<F("upload-starved", StarvedBy(o, CHOOSE a \in DOMAIN o.stalled : UploadStarved(o, a)))>> ELSE <<>>)
       [] OTHER -> <<>>
 
 MInit == [o |-> OInit, fails |-> <<>>]
